@@ -129,7 +129,8 @@ claim('C03', 'DESIGN.md 4/C03',
       'per pair, diameters, kT), decides which pairs have a hard core and their core extent, and checks that the composed term '
       'potential -> closure reduces to -1 - gamma (CoreValueHoldsAll, float64 underflow assumption explicit); every Stride-th '
       'configuration built as a real System and run through the real PRISM.cost with seeded trial vectors (closure.value == -1 - GammaIn '
-      'bitwise on core points) and a subset solved (|g| <= |fun|/r on core points)',
+      'bitwise on core points) and a subset solved (|g| <= |fun|/r on core points); every PRISM.cost evaluation during the solves of the '
+      'repository PRISM/CalcPRISM tests and of the drivers validated against Trace_HardCore.tla (hard-core classification by the specification)',
       'Exhaustive over configurations at the specification level; sampled (deterministic stride) replay through the real cost function '
       'with zero/small/large trial vectors on a dyadic and a non-dyadic grid, plus solved objects.',
       'Two site types; densities, omegas and potential parameters seeded; unconverged solves skipped; MSA/MS unflagged on divergent '
@@ -264,7 +265,7 @@ def main():
         print('MANIFEST.json written (jsonschema not available, not validated)')
 
 
-HOOK_COMMITS = ['d61a665']
+HOOK_COMMITS = ['d61a665', 'c0ef968']
 
 if __name__ == '__main__':
     main()
